@@ -31,3 +31,5 @@ for id in "$@"; do
   if [ $rc -ge 2 ] || [ -n "${VERIF_MUT_STDERR:-}" ]; then tail -n 8 "$scratch/stderr.txt" | cut -c1-600; fi
   echo "$out" | grep -A2 "^VIOLATION" | cut -c1-400
 done
+# note: every patched tree adds its own entries to the shared Go build cache (a few hundred MB each);
+# after many runs `go clean -cache` gives the space back
